@@ -82,7 +82,7 @@ def rule_futex_key(rep, rid_prefix, prog, pairs=FUTEX_PAIRS):
     """waiter / waker agreement on the futex key class: a FUTEX_WAIT on a shared key is never found by a FUTEX_WAKE on a private key"""
     from dqsa import consts
     rid = rep.rule(rid_prefix + "-FK", "sleep/wake pairing: the blocking side and the waking side of each primitive pass the same futex opflags (private vs shared key); "
-                   "the kernel matches waiters and wakers by key, a mismatch makes every wake-up find nobody", floor=4)
+                   "the kernel matches waiters and wakers by key, a mismatch makes every wake-up find nobody", floor=10)
     k = consts.get(["FUTEX_PRIVATE_FLAG"], unit="shims/lock", includes=("linux/futex.h",))
     def sys_ops(fn, env, depth=0):
         """values of the futex op word (operation | opflags) that reach the kernel from calls made in fn, with fn's arguments bound by env: followed through
@@ -150,6 +150,35 @@ def rule_futex_key(rep, rid_prefix, prog, pairs=FUTEX_PAIRS):
     sys_ = [c for c in fb.all_insts() if c.op == "call" and c.callee in ("_dispatch_futex", "syscall")]
     if not sys_:
         rep.unknown(rid, "anchor vanished: _futex_blocking_op makes no futex system call")
+    # errno classification of a failed wait: "the word no longer holds the expected value" (EAGAIN == EWOULDBLOCK) and ETIMEDOUT go back to the caller -
+    # the caller re-reads the word / gives up; retrying EAGAIN inside the helper waits again on the stale value against a word that has reached its final
+    # value: the waiter spins in the kernel for ever although the awaited event (once DONE, lock released, group emptied) has happened
+    ke = consts.get(["EAGAIN", "EWOULDBLOCK", "ETIMEDOUT", "EINTR"], unit="shims/lock", includes=("errno.h",))
+    errl = [l for l in fb.all_insts() if l.op == "load" and fb.inst(l.d["ptr"]["base"]) is not None and fb.inst(l.d["ptr"]["base"]).op == "call"
+            and fb.inst(l.d["ptr"]["base"]).callee == "__errno_location"] if sys_ else []
+    if sys_ and not errl:
+        rep.unknown(rid, "anchor vanished: _futex_blocking_op does not read errno")
+    for nm in ("EAGAIN", "EWOULDBLOCK", "ETIMEDOUT"):
+        if not errl:
+            break
+        for tmo in (0, 0x1000):
+            env = {c.id: 0xffffffff for c in sys_}
+            env.update({l.id: ke[nm] for l in errl})
+            env[("a", 3)] = tmo
+            count = [0]
+            def stop(i, count=count):
+                if i in sys_:
+                    count[0] += 1
+                    return count[0] > 1
+                return i.op == "ret"
+            hit, env = concrete_walk_any(fb, env, stop)
+            retried = hit is not None and hit in sys_
+            rep.require(rid, not retried and hit is not None, sys_[0].loc, fb.name, "futex-errno-retried:%s:%d" % (nm, 1 if tmo else 0),
+                        "_futex_blocking_op %s when the futex call fails with %s (%s timeout): that errno must be handed back to the caller - %s"
+                        % ("waits again" if retried else "does not return", nm, "with a" if tmo else "without",
+                           "EAGAIN / EWOULDBLOCK means the word no longer holds the value the caller read, so waiting again on that value can never be satisfied "
+                           "once the word has reached its final value (dispatch_once DONE, lock released): the caller never returns" if nm != "ETIMEDOUT" else
+                           "the timeout has expired"), sample={"errno": nm, "timeout": bool(tmo)})
     for c in sys_:
         ops = c.ops if c.callee == "_dispatch_futex" else c.ops[1:]
         ok = len(ops) >= 3 and list(ops[0][:2]) == ["a", 0] and list(ops[2][:2]) == ["a", 2]
